@@ -12,17 +12,36 @@ def mutations(kindname, y, nh):
     empty state)."""
     k = kindname.split('-')[0]
     if k in ('str', 'ustr', 'mbuff'):
-        return ['append %d 7a7a' % y, 'substr %d 0 1' % y, 'done %d' % y, 'append %d 71' % y]
+        # the len / size setters given the getters' answers; a buffer cut short through set_len
+        return (['append %d 7a7a' % y, 'setlen %d -1' % y] + (['setlen %d 1' % y, 'dump %d' % y] if k == 'mbuff' else []) +
+                ['substr %d 0 1' % y, 'done %d' % y, 'setlen %d -1' % y, 'append %d 71' % y])
     if k == 'obj':
         return ['done %d' % y]
     if k == 'pair':
-        return ['str 6e6b', 'setk %d %d' % (y, nh), 'setv %d _' % y, 'done %d' % y, 'str 6b32', 'setk %d %d' % (y, nh + 1),
-                'str 7632', 'setv %d %d' % (y, nh + 2)]
+        return ['str 6e6b', 'setk %d %d' % (y, nh), 'mappend %d 0 7a7a' % y, 'setv %d _' % y, 'done %d' % y, 'str 6b32', 'setk %d %d' % (y, nh + 1),
+                'str 7632', 'setv %d %d' % (y, nh + 2), 'mappend %d 1 -' % y, 'mappend %d 1 71' % y]
     if k == 'tok':
-        return ['eval %d' % y, 'str 2c', 'setsep %d %d' % (y, nh), 'eval %d' % y, 'str 7120722073', 'setsrc %d %d' % (y, nh + 1),
-                'eval %d' % y, 'done %d' % y, 'eval %d' % y, 'str 6120622063', 'setsrc %d %d' % (y, nh + 2), 'eval %d' % y]
+        # every setter of the class, each followed by a read-back BEFORE the next eval (the token list is then out
+        # of step with the member just changed), the list edited through get_tokens, a list installed and removed
+        # with set_tokens, members changed in place through their getters, done and re-use
+        ops, n = [], [nh]
+
+        def new(op):
+            ops.append(op)
+            n[0] += 1
+            return n[0] - 1
+        ops.append('eval %d' % y)
+        ops += ['setsep %d %d' % (y, new('str 2c')), 'dump %d' % y, 'eval %d' % y]
+        ops += ['setsrc %d %d' % (y, new('str ' + hx(b"q |r,s| 't u'"))), 'dump %d' % y, 'eval %d' % y]
+        ops += ['setq %d q 124' % y, 'dump %d' % y, 'eval %d' % y, 'setq %d d 39' % y, 'setq %d e 113' % y, 'dump %d' % y, 'eval %d' % y]
+        new('tlremove_at %d 0' % y)
+        ops += ['dump %d' % y, 'tlappend %d %d' % (y, new('str 7a')), 'mappend %d 0 2078' % y, 'mappend %d 1 20' % y, 'dump %d' % y, 'eval %d' % y]
+        lst = new('cont L a')
+        ops += ['lappend %d %d' % (lst, new('str 65')), 'settoks %d %d' % (y, lst), 'dump %d' % y, 'eval %d' % y, 'settoks %d _' % y, 'dump %d' % y]
+        ops += ['done %d' % y, 'eval %d' % y, 'setsrc %d %d' % (y, new('str 6120622063')), 'eval %d' % y]
+        return ops
     if k == 'url':
-        return ['str 6e6e', 'urlset %d 3 %d' % (y, nh), 'str 3939', 'urlset %d 4 %d' % (y, nh + 1), 'urlset %d 5 _' % y,
+        return ['str 6e6e', 'urlset %d 3 %d' % (y, nh), 'mappend %d 3 2e78' % y, 'str 3939', 'urlset %d 4 %d' % (y, nh + 1), 'urlset %d 5 _' % y,
                 'unparse %d' % y, 'done %d' % y, 'str 6868', 'urlset %d 3 %d' % (y, nh + 2), 'unparse %d' % y]
     if k == 're':
         # every flag letter in turn (the read-back says what the object matches), recompile, empty, re-use
@@ -63,7 +82,9 @@ class C05(vlib.PropertyCheck):
                    '(blocks left allocated, and which of 12 probe subjects it matches) calibrated against the running pcre library '
                    'with straight pcre_compile/pcre_exec calls; every read-back of a regexp object includes what the OBJECT matches '
                    '(both matching entry points) and must equal the table entry of its value',
-                   'the service database answers "unknown" (interposed), so url parsing never fills a port']
+                   'the service database answers "unknown" (interposed), so url parsing never fills a port',
+                   'the text of a regexp object is not changed through the str interface after construction (the class has no setter '
+                   'for it); stream contents given to the str / ustr / tok constructors are NUL-free']
     tie_text = ('correspondence harness: harness/c05.c built twice from the tree under test (ASan/UBSan build for values and memory '
                 'faults; sanitizer-free build with a monotone bump allocator behind -Wl,--wrap=malloc,... for comparisons by '
                 'address), driver/c05_main.ml, checks/ownlib.py, lib/vlib.py')
@@ -78,11 +99,21 @@ class C05(vlib.PropertyCheck):
               '(C05_dup_fresh), and any later history that does not name one of two handles leaves its value unchanged and held '
               '(C05_independent); comp is a structural recursion (no fuel, so it terminates) that is reflexive, antisymmetric and '
               'transitive wherever it is defined, orders NULL below every object and makes equal-prefix buffers of different '
-              'length unequal (C05_comp_*); comp is defined on all objects of one comparison type (C05_comp_defined); type() '
+              'length unequal (C05_comp_*); comp is defined on all objects of one comparison type (C05_comp_defined); a tokenizer\'s '
+              'copy carries the original\'s source, separators, quote / dquote / escape characters and its token list AS IT IS - also '
+              'when the list is out of step with the other members because a member was changed after eval, a token was removed '
+              'from the list spif_tok_get_tokens hands out or a list was installed with spif_tok_set_tokens - and such states are '
+              'reachable (C05_dup_tok_copies_members, C05_tok_setter_leaves_list); with the default characters the model\'s scanner '
+              'is the quoting grammar of C12 (C05_tok_scanner_default); type() '
               'returns the class name generated from the SPIF_DECL_CLASSNAME entries (C05_type_names_class). Decided by the '
               'correspondence check only: that the C routines are the modelled functions (generated programs over all classes run '
               'through the extracted model and the ASan build; dup followed by a history on the copy including del, then read-back '
-              'of the original, and vice versa - every such history ends with done() and re-use without init, maps are also '
+              'of the original, and vice versa - every such history ends with done() and re-use without init and applies every '
+              'setter of the class (tok: src, sep, quote, dquote, escape, tokens; url: the seven components; objpair: key, value; '
+              'regexp: flags; mbuff: len) with a read-back BEFORE the next eval / unparse / compile, edits members in place through '
+              'the pointers the getters hand out, and the read-back goes through the getters as well as the struct; class states '
+              'include tokenizers whose list is stale in each of these ways, custom / switched-off / high-bit quote characters, '
+              'and objects made by the constructors from FILE* / descriptor; maps are also '
               'filled through the pair form of set and handed their own stored entries, and the read-back of a regexp says what '
               'the object matches, with one class state per compile flag whose pattern makes the flag decide a probe; '
               'all pairs of pools of objects per class including NULL with the order laws '
@@ -164,7 +195,10 @@ class C05(vlib.PropertyCheck):
         pool('ord', [['pair _ _'], ['str 61', 'pair 0 _'], ['str 62', 'str 78', 'pair 0 1'], ['str 76', 'pair _ 0'],
                      ['str 61', 'str 79', 'pair 0 1'], ['str 6162', 'pair 0 _']])
         out.append('ord %s ; str 61 ; str 62 ; pair 0 1 ; comp 2 0 ; comp 2 1 ; pair _ 0 ; comp 3 0 ; comp 3 _ ; delall' % oracle)
-        pool('ord', [['tok N'], ['tok 61'], ['tok 6162'], ['tok 61', 'eval 0'], ['tok 62'], ['tok -']])
+        pool('ord', [['tok N'], ['tok 61'], ['tok 6162'], ['tok 61', 'eval 0'], ['tok 62'], ['tok -'], ['tok 61', 'setq 0 q 124', 'eval 0'],
+                     ['tok 6162', 'eval 0', 'setsrc 0 _'], ['fnew tok fp reg 61 0'], ['tok 61', 'cont L a', 'settoks 0 1']])
+        pool('ord', [['fnew %s fd reg 6162 0' % k] for k in ('str',)] + [['str 6162'], ['fnew str fp reg 610a62 0'], ['str 61'], ['fnew str fd closed - 0'], ['str -']])
+        pool('ord', [['fnew mbuff fp reg 616263 1'], ['mbuff 6263'], ['mbuff 626364', 'setlen 0 2'], ['fnew mbuff fd pipe - 0'], ['mbuff N'], ['mbuff 62']])
         pool('ord', [['url N'], ['url ' + hx(b'a')], ['url ' + hx(b'xq://h')], ['url ' + hx(b'a')], ['url ' + hx(b'b:1')],
                      ['url ' + hx(b'xq://h'), 'unparse 0']])
         pool('ord', [['re N'], ['re 61'], ['re 6162'], ['re 61', 'flags 0 69'], ['re 6128'], ['re -']])
